@@ -4,6 +4,8 @@ package main
 // the pool's view, blocks built from what is pending) and emits explicit, replayable operations.
 
 import (
+	"strconv"
+	"strings"
 	"sync"
 	"time"
 
@@ -18,7 +20,7 @@ func newBig(x uint64) *big.Int { return new(big.Int).SetUint64(x) }
 var (
 	prices   = []uint64{1, 1, 2, 3, 5, 10, 10, 11, 12, 20, 50}
 	gasLims  = []uint64{100000, 100000, 60000, 1000000}
-	balances = []uint64{0, 50000, 2000000, 30000000, 30000000, 1000000000, 1000000000, 1000000000}
+	balances = []uint64{0, 2000000, 30000000, 30000000, 1000000000, 1000000000, 1000000000, 1000000000}
 )
 
 func genCfg(r *hx.Rng) ACfg {
@@ -72,7 +74,7 @@ func genTx(r *hx.Rng, st *AState) ATx {
 	case 3:
 		t.G = 200000
 	}
-	switch r.Intn(10) {
+	switch r.Intn(16) {
 	case 0:
 		t.V = 0
 	case 1:
@@ -94,6 +96,28 @@ func genBlock(r *hx.Rng, st *AState, history []ATx) BlockSpec {
 	for i := 0; i < nAccounts; i++ {
 		if l := st.Pend[i].Txs; len(l) > 0 && r.Intn(3) > 0 {
 			b.Txs = append(b.Txs, l[:1+r.Intn(len(l))]...)
+		}
+	}
+	// ... other miners include whatever they have seen: for some accounts the next nonces out of everything ever submitted
+	// (this covers transactions the pool has evicted or lost in the meantime)
+	for i := 0; i < nAccounts; i++ {
+		if r.Intn(4) != 0 {
+			continue
+		}
+		next := int(st.CNonce[i])
+		for k := 0; k < 3; k++ {
+			found := false
+			for _, t := range history {
+				if t.S == i && t.N == next && t.Kind == 0 {
+					b.Txs = append(b.Txs, t)
+					found = true
+					break
+				}
+			}
+			if !found {
+				break
+			}
+			next++
 		}
 	}
 	// ... and transactions the pool never saw or no longer holds (competitors at the same nonce included)
@@ -149,7 +173,7 @@ func genHistory(run *hx.Run, r *hx.Rng, maxOps int) *History {
 				o.Txs = append(o.Txs, t)
 			}
 		case k < 68:
-			o = Op{Kind: "price", Price: []uint64{1, 2, 3, 4, 6, 11, 15}[r.Intn(7)]}
+			o = Op{Kind: "price", Price: []uint64{1, 1, 2, 3, 3, 4, 6, 11}[r.Intn(8)]}
 		case k < 88: // head advance
 			o = Op{Kind: "head", Back: 0}
 			for j := 1 + r.Intn(2); j > 0; j-- {
@@ -271,6 +295,10 @@ func concurrentRun(run *hx.Run, r *hx.Rng) {
 	}
 	st := Observe(w, sim.pool)
 	fail("final snapshot", st.CheckInv(h.Cfg, false))
-	run.Case(h.Cfg.String()+" "+st.String()+" op=check", "res=ok "+st.String())
+	var hi []string
+	for i := 0; i < nAccounts; i++ {
+		hi = append(hi, strconv.FormatUint(w.HiNonce(i), 10))
+	}
+	run.Case(h.Cfg.String()+" "+st.String()+" op=check o.hi="+strings.Join(hi, ";"), "res=ok "+st.String())
 	run.Count("concurrent:runs")
 }
